@@ -125,6 +125,34 @@ func Gzip(raw []byte) []byte {
 	return buf.Bytes()
 }
 
+// GzipTwoMembers compresses raw (a tar stream) as TWO concatenated gzip members, the first
+// ending exactly where the first entry of the archive ends. RFC 1952 allows any number of
+// members; a reader that stops after the first one sees a clean end of archive there.
+func GzipTwoMembers(raw []byte) []byte {
+	cr := &countReader{r: bytes.NewReader(raw)}
+	tr := tar.NewReader(cr)
+	off := len(raw)
+	if _, err := tr.Next(); err == nil {
+		io.Copy(io.Discard, tr)
+		off = (cr.n + 511) / 512 * 512
+		if off > len(raw) {
+			off = len(raw)
+		}
+	}
+	return append(Gzip(raw[:off]), Gzip(raw[off:])...)
+}
+
+type countReader struct {
+	r io.Reader
+	n int
+}
+
+func (c *countReader) Read(p []byte) (int, error) {
+	n, err := c.r.Read(p)
+	c.n += n
+	return n, err
+}
+
 // Build = Gzip(Tar(...)).
 func Build(entries []Entry, format tar.Format) ([]byte, error) {
 	raw, err := Tar(entries, format)
